@@ -498,6 +498,9 @@ static void build_writers(const Case& c, WSet& s) {
     auto* p = w_add<nop::BoundedWriter<nop::BufferWriter>, true, false>(s, "Bounded<BufferWriter>", new nop::BoundedWriter<nop::BufferWriter>(u.get(), C), C, false, u); buffer_getter(p, m, C); }
   { auto m = exact_buffer(C); auto u = std::make_shared<nop::PedanticBufferWriter>(m.get(), C);
     auto* p = w_add<nop::BoundedWriter<nop::PedanticBufferWriter>, true, false>(s, "Bounded<PedanticBufferWriter>", new nop::BoundedWriter<nop::PedanticBufferWriter>(u.get(), C), C, false, u); buffer_getter(p, m, C); }
+  // a window WIDER than what the wrapped writer can take: the wrapped writer's own limit is the effective one
+  { auto m = exact_buffer(C); auto u = std::make_shared<nop::PedanticBufferWriter>(m.get(), C);
+    auto* p = w_add<nop::BoundedWriter<nop::PedanticBufferWriter>, true, false>(s, "Bounded<PedanticBufferWriter>/window-wider-than-buffer", new nop::BoundedWriter<nop::PedanticBufferWriter>(u.get(), C + 5), C, false, u); buffer_getter(p, m, C); }
   { auto m = exact_buffer(C); auto u = std::make_shared<nop::ConstexprBufferWriter>(m.get(), C);
     auto* p = w_add<nop::BoundedWriter<nop::ConstexprBufferWriter>, true, true>(s, "Bounded<ConstexprBufferWriter>", new nop::BoundedWriter<nop::ConstexprBufferWriter>(u.get(), C), C, false, u); buffer_getter(p, m, C); }
   { auto u = std::make_shared<SStreamWriter>();
